@@ -73,9 +73,37 @@ def scenarios(ctx, cfg, limit, flt=None):
 
 
 # ------------------------------------------------------------------------------------------------- driver + trace validation
-def drive(ctx, modes, runs, cfgs, scripts, tracedir):
+def hook_cases(ctx, cfg):
+    """Call sequences on a dedicated client with the predictions of HookSeq.tla (depends on the specification only: cached)."""
+    h = hashlib.sha256()
+    for f in ['HookSeq.tla', cfg]:
+        h.update(open(os.path.join(vlib.SPEC, FAMILY, f), 'rb').read())
+    os.makedirs(vlib.BUILD, exist_ok=True)
+    cache = os.path.join(vlib.BUILD, 'pipe-hookseq-%s-%s.json' % (cfg.replace('.cfg', ''), h.hexdigest()[:16]))
+    if os.path.exists(cache):
+        data = json.load(open(cache))
+        ctx.tlc_runs.append(dict(data['summary'], cached=True))
+    else:
+        r = vlib.tlc(FAMILY, 'HookSeq', cfg, workers=1, timeout=1500, collect_cases=True)
+        if not r.ok or not r.cases:
+            ctx.inconclusive.append('HookSeq.tla generation %s failed: %s %s\n%s' % (cfg, r.violated, r.error, r.output[-1500:]))
+            return []
+        data = dict(summary=r.summary(), cases=r.cases)
+        json.dump(data, open(cache, 'w'))
+        ctx.tlc_runs.append(r.summary())
+        ctx.states += r.distinct
+        ctx.transitions += r.generated
+    ctx.extra['hookseq_cases'] = len(data['cases'])
+    return data['cases']
+
+
+def drive(ctx, modes, runs, cfgs, scripts, tracedir, hookcases=None):
     binp = vlib.build('pipedrv')
     args = ['-modes', ','.join(modes), '-runs', str(runs), '-cfgs', cfgs, '-tracedir', tracedir]
+    if hookcases:
+        hp = os.path.join(tracedir, 'hookcases.json')
+        vlib.write_ndjson(hp, hookcases)
+        args += ['-hookcases', hp]
     if scripts:
         sp = os.path.join(tracedir, 'scenarios.json')
         with open(sp, 'w') as f:
@@ -112,8 +140,9 @@ def _context(events, pos):
     return mode, e['ev'], ckind, events[start:i + 1]
 
 
-def _early_unsubscribe(run):
-    """The last event of `run` is the Ret (nil) of a Receive.  True when an unsubscribe push for one of its channels was
+def _early_unsubscribe(run, whole=None):
+    """The last event of `run` is the Ret (nil) of a Receive (`whole`: the complete run, `run` is its prefix up to that
+    Ret).  True when an unsubscribe push for one of its channels was
     queued by the server after the Receive was called but before the server received its SUBSCRIBE: pipe.go registers
     the subscriber before the command is written and treats every unsubscribe notification of the channel alike, so the
     older notification ends the newer Receive (known finding, see known_findings.json)."""
@@ -133,9 +162,12 @@ def _early_unsubscribe(run):
         # witnessed by an earlier Receive on that channel that returned only after this one was called
         for k, e in enumerate(run[:call]):
             if unsub(e):
+                full = whole or run
                 for c2 in set(x.get('c') for x in run[:call] if x['ev'] == 'Call' and x.get('kind') == 'sub' and x.get('c') != c):
-                    r2 = next((j for j, x in enumerate(run) if x['ev'] == 'Ret' and x.get('c') == c2), None)
-                    if r2 is not None and r2 > call:
+                    # (the older Receive may return even later than this one: look at the whole run; one that never
+                    # returned had not been ended by the push either when this one was called)
+                    r2 = next((j for j, x in enumerate(full) if x['ev'] == 'Ret' and x.get('c') == c2), None)
+                    if r2 is None or r2 > call:
                         early = True
     late = any(unsub(e) for e in run[recv:])
     return early and not late
@@ -190,13 +222,17 @@ def validate(ctx, tracedir, props):
         if names:
             clean = False
             mode, ev, ckind, prefix = _context(events, pos)
+            _i = pos - 1
+            _start = max([j for j in range(_i + 1) if events[j]['ev'] == 'RESET'] or [0])
+            _end = next((j for j in range(_i + 1, len(events)) if events[j]['ev'] == 'RESET'), len(events))
+            whole = events[_start:_end]
             keep = os.path.join(vlib.VERIF, 'replays', ctx.pid)
             os.makedirs(keep, exist_ok=True)
             dst = os.path.join(keep, 'trace-%s-%s.ndjson' % (names[0], mode))
             vlib.write_ndjson(dst, prefix)
             for n in names:
                 sig = 'pipe-trace:%s:ev=%s:kind=%s:mode=%s' % (n, ev, ckind, mode)
-                if n == 'ReceiveReturn' and _early_unsubscribe(prefix):
+                if n == 'ReceiveReturn' and _early_unsubscribe(prefix, whole):
                     sig += ':race=unsubscribe-push-older-than-own-subscribe'
                 ctx.violation(sig,
                               'the recorded behaviour of the real client violates %s of PipeObs.tla at record #%d (%s, run of mode %s): %s' % (
@@ -364,9 +400,20 @@ ASSUMPTIONS = [
 ]
 
 
-def run_family(ctx, pid, mc, negs, gens, modes, neg_traces, runs_quick, runs_thorough, builder=False):
+def run_family(ctx, pid, mc, negs, gens, modes, neg_traces, runs_quick, runs_thorough, builder=False, hookseq=False):
     th = ctx.tier == 'thorough'
-    jobs = [dict(cfg=c) for c in mc] + [dict(cfg=c, expect=inv) for c, inv in negs]
+    jobs = [dict(cfg=c) for c in mc] + [dict(cfg=n[0], expect=n[1]) for n in negs if th or len(n) < 3]   # (cfg, inv, 'th'): thorough only
+    hcases = []
+    if hookseq:
+        # the life cycle of the SetPubSubHooks channels over call sequences (HookSeq.tla): exhaustive model, the negative
+        # configurations, and the generated sequences with their predictions for mode hookseq of the driver
+        jobs += [dict(module='HookSeq', cfg='HookSeq_MC.cfg'),
+                 dict(module='HookSeq', cfg='HookSeq_neg_keepparked.cfg', expect='NoDoubleClose'),
+                 dict(module='HookSeq', cfg='HookSeq_neg_noclose.cfg', expect='OpenIsWanted')]
+        if th:
+            jobs += [dict(module='HookSeq', cfg='HookSeq_neg_keepparked2.cfg', expect='InstalledIsWanted'),
+                     dict(module='HookSeq', cfg='HookSeq_MC_thorough.cfg')]
+        hcases = hook_cases(ctx, 'HookSeq_Gen.cfg' if th else 'HookSeq_Gen_q.cfg')
     if th:
         jobs += [dict(cfg=c, workers=4, timeout=2400) for c in THOROUGH_MC.get(pid, [])]
     tlc_jobs(ctx, jobs)
@@ -378,7 +425,8 @@ def run_family(ctx, pid, mc, negs, gens, modes, neg_traces, runs_quick, runs_tho
         scripts += scenarios(ctx, cfg, nt if th else nq, g[3] if len(g) > 3 else None)
     tracedir = tempfile.mkdtemp(prefix='verif-pipe-', dir=vlib.SCRATCH_ROOT)
     try:
-        drive(ctx, modes + (['scenario'] if scripts else []), runs_thorough if th else runs_quick, 'thorough' if th else 'quick', scripts, tracedir)
+        drive(ctx, modes + (['scenario'] if scripts else []) + (['hookseq'] if hcases else []), runs_thorough if th else runs_quick,
+              'thorough' if th else 'quick', scripts, tracedir, hcases)
         events = validate(ctx, tracedir, PROPS[pid])
         negative_traces(ctx, events, neg_traces if th else neg_traces[:2], PROPS[pid])
     finally:
